@@ -7,7 +7,7 @@ from vlib import c19_wire as W
 from vlib import c19_codec as C
 from vlib.c19_ops import (Op, reg, opt, uid_s, text_s, bytes_s, nbytes_s, masks_s, alg_s, date_s,
                           cp_s, orbits, plain, _E, lib_cp, lib_cp_dict, lib_masks, lib_attr,
-                          lib_template, chk_val, chk_only, chk_attr, template_of, find_attrs)
+                          lib_template, chk_val, chk_attr, template_of)
 
 DATE_KW = [("activation_date", "Activation Date"), ("process_start_date", "Process Start Date"),
            ("protect_stop_date", "Protect Stop Date"), ("deactivation_date", "Deactivation Date")]
@@ -261,7 +261,6 @@ def resp_attr_s(v):
 
 def attr_plain(a):
     """kmip.core.objects.Attribute (documented return type) -> [name, index, value]."""
-    from kmip.core import attributes as cattr
     name = plain(getattr(a, "attribute_name", None))
     idx = plain(getattr(a, "attribute_index", None))
     val = getattr(a, "attribute_value", None)
